@@ -23,10 +23,33 @@ pub fn cycle_check(text: &str, strict: bool, cycles: usize) -> Result<(), (Strin
         for &mode in modes {
             match load(&prev_text, mode) {
                 Loaded::Ok(f, log) => {
-                    if f != prev_model {
+                    // the raw A2ML text is written with LF line ends whatever the input used (line ends are layout)
+                    let eol = |m: &a2lfile::A2lFile| {
+                        let mut m = m.clone();
+                        for module in &mut m.project.module {
+                            if let Some(a) = &mut module.a2ml {
+                                a.a2ml_text = a.a2ml_text.replace("\r\n", "\n");
+                            }
+                        }
+                        m
+                    };
+                    if f != prev_model && eol(&f) != eol(&prev_model) {
+                        // A2ML text that follows the keyword without white space gets a separator on the first write
+                        let adj = |m: &a2lfile::A2lFile| {
+                            let mut m = eol(m);
+                            for module in &mut m.project.module {
+                                if let Some(a) = &mut module.a2ml {
+                                    a.a2ml_text = a.a2ml_text.trim_start().to_string();
+                                }
+                            }
+                            m
+                        };
+                        if adj(&f) == adj(&prev_model) {
+                            return Err(("a2ml-adjacent-text".into(), format!("cycle {k} (strict={mode}): the A2ML text gained leading white space")));
+                        }
                         // is the order of RESERVED entries (position-restricted, repeatable) the only difference?
                         let norm = |m: &a2lfile::A2lFile| {
-                            let mut m = m.clone();
+                            let mut m = eol(m);
                             for module in &mut m.project.module {
                                 for rl in &mut module.record_layout {
                                     rl.reserved.sort_by_key(|r| r.position);
@@ -88,7 +111,7 @@ pub fn run(args: &Args) -> Report {
     } else {
         let n = if args.thorough { 30000 } else { 1500 };
         for i in 0..n {
-            let opts = GenOpts { opt_prob: [10, 30, 60][i % 3], max_repeat: 1 + i % 3, ..GenOpts::default() };
+            let opts = GenOpts { opt_prob: [10, 30, 60][i % 3], max_repeat: 1 + i % 3, specials: i % 4 == 1, ..GenOpts::default() };
             let toks = gen_document(&g, &mut rng, opts);
             let layout = [Layout::Canonical, Layout::Wild, Layout::Dense][(i / 3) % 3];
             let crlf = i % 7 == 3;
@@ -101,7 +124,7 @@ pub fn run(args: &Args) -> Report {
     if args.replay.is_none() {
         let nmut = if args.thorough { 400 } else { 60 };
         for d in 0..nmut {
-            let toks = gen_document(&g, &mut rng, GenOpts { opt_prob: 25, ..GenOpts::default() });
+            let toks = gen_document(&g, &mut rng, GenOpts { opt_prob: 25, specials: d % 3 == 0, ..GenOpts::default() });
             let text = render(&toks, &mut rng, Layout::Canonical, false);
             for m in crate::soup::token_mutations(&text, &mut rng, 12) {
                 texts.push((m, d % 2 == 0, "mutation"));
